@@ -3,6 +3,7 @@ import json
 import numpy as np
 
 from harness.core import Machinery
+from checks import binding
 from harness.proj import relayout
 from checks.flowgrid import quiet as quiet_stdout
 
@@ -27,7 +28,7 @@ def _variant(poly, h):
 
 
 def spec_to_code(ctx, gutils, Grid, cfg):
-    res = ctx.tlc("PolygonDump", cfg, timeout=3000, heap="6g")
+    res = ctx.tlc("PolygonDump", cfg, workers=16, timeout=3000, heap="6g")
     if res.violated:
         raise Machinery("Polygon.tla: model of c_inside disagrees with the even-odd contract: %s" % res.violated)
     cases = res.printed()
@@ -163,10 +164,11 @@ def code_to_spec(ctx, gutils, ncases):
     with open(path, "w") as f:
         for r in recs:
             f.write(json.dumps(r) + "\n")
-    res = ctx.tlc("PolygonTrace", "MC_PolygonTrace.cfg", workers=1, timeout=3000, heap="6g",
+    res = ctx.tlc("PolygonTrace", "MC_PolygonTrace.cfg", timeout=3000, heap="6g",
                   env={"TRACE_FILE": str(path)})
     if not res.tuples("VALIDATED"):
         raise Machinery("PolygonTrace did not complete:\n" + res.out[-2500:])
+    ctx.binding_demo("PolygonTrace", "MC_PolygonTrace.cfg", path, binding.polygon, timeout=3000, heap="6g")
     for line in res.tuples("REJECT"):
         parts = line.strip("<>").split(",")
         r = recs[int(parts[1]) - 1]
